@@ -249,28 +249,28 @@ func TestC06Exhaustive(t *testing.T) {
 }
 
 func genC06(t *rapid.T) C06Case {
-	wrap := rapid.SampledFrom([]string{"", "key", "index", "deep"}).Draw(t, "wrap")
-	mode := rapid.IntRange(0, 2).Draw(t, "mode")
+	wrap := gen.Pick(t, "wrap", []string{"", "key", "index", "deep"})
+	mode := gen.Int(t, "mode", 0, 2)
 	switch mode {
 	case 0: // long scalar arrays over small alphabets
-		alpha := rapid.IntRange(2, 6).Draw(t, "alpha")
-		n := rapid.IntRange(0, 30).Draw(t, "n")
+		alpha := gen.Int(t, "alpha", 2, 6)
+		n := gen.Int(t, "n", 0, 30)
 		a := make([]val.V, n)
 		for i := range a {
-			a[i] = c06symbols[rapid.IntRange(0, alpha-1).Draw(t, "sym")]
+			a[i] = c06symbols[gen.Int(t, "sym", 0, alpha-1)]
 		}
 		var b val.V
-		if rapid.IntRange(0, 9).Draw(t, "indep") < 3 {
-			m := rapid.IntRange(0, 30).Draw(t, "m")
+		if gen.Int(t, "indep", 0, 9) < 3 {
+			m := gen.Int(t, "m", 0, 30)
 			bb := make([]val.V, m)
 			for i := range bb {
-				bb[i] = c06symbols[rapid.IntRange(0, alpha-1).Draw(t, "sym")]
+				bb[i] = c06symbols[gen.Int(t, "sym", 0, alpha-1)]
 			}
 			b = bb
 		} else {
 			p := gen.Profile{ScalarArr: true, MaxArr: 8}
 			b = val.Clone(a)
-			for k := rapid.IntRange(1, 5).Draw(t, "edits"); k > 0; k-- {
+			for k := gen.Int(t, "edits", 1, 5); k > 0; k-- {
 				b = c06editTop(t, b.([]val.V), p)
 			}
 		}
@@ -279,20 +279,20 @@ func genC06(t *rapid.T) C06Case {
 		p := gen.Profile{MaxDepth: 2, MaxArr: 7, ArrayBias: 30}
 		a := gen.Array(t, p, 0).([]val.V)
 		b := val.Clone(a).([]val.V)
-		for k := rapid.IntRange(1, 4).Draw(t, "edits"); k > 0; k-- {
+		for k := gen.Int(t, "edits", 1, 4); k > 0; k-- {
 			b = c06editTop(t, b, p)
 		}
 		return C06Case{A: val.JSON(a), B: val.JSON(b), Wrap: wrap}
 	default: // one container element changed inside
 		p := gen.Profile{MaxDepth: 2, MaxArr: 6}
 		a := gen.Array(t, p, 0).([]val.V)
-		k := rapid.IntRange(0, len(a)).Draw(t, "focusAt")
+		k := gen.Int(t, "focusAt", 0, len(a))
 		var elem, elem2 val.V
 		if rapid.Bool().Draw(t, "focusIsArray") {
-			elem = []val.V{"f0", float64(rapid.IntRange(0, 3).Draw(t, "f1"))}
-			elem2 = []val.V{"f0", "changed", float64(rapid.IntRange(0, 3).Draw(t, "f2"))}
+			elem = []val.V{"f0", float64(gen.Int(t, "f1", 0, 3))}
+			elem2 = []val.V{"f0", "changed", float64(gen.Int(t, "f2", 0, 3))}
 		} else {
-			elem = map[string]val.V{"f": "focus", "v": float64(rapid.IntRange(0, 3).Draw(t, "f1"))}
+			elem = map[string]val.V{"f": "focus", "v": float64(gen.Int(t, "f1", 0, 3))}
 			elem2 = map[string]val.V{"f": "focus", "v": "changed"}
 		}
 		a2 := append(append(append([]val.V{}, a[:k]...), elem), a[k:]...)
@@ -306,39 +306,39 @@ func c06editTop(t *rapid.T, x []val.V, p gen.Profile) []val.V {
 	n := len(x)
 	newElem := func() val.V {
 		if p.ScalarArr {
-			return c06symbols[rapid.IntRange(0, 5).Draw(t, "sym")]
+			return c06symbols[gen.Int(t, "sym", 0, 5)]
 		}
 		return gen.Value(t, p, 1)
 	}
-	op := rapid.IntRange(0, 5).Draw(t, "op")
+	op := gen.Int(t, "op", 0, 5)
 	switch {
 	case op == 0 || n == 0:
-		i := rapid.IntRange(0, n).Draw(t, "at")
+		i := gen.Int(t, "at", 0, n)
 		out := append([]val.V{}, x[:i]...)
 		out = append(out, newElem())
 		return append(out, x[i:]...)
 	case op == 1:
-		i := rapid.IntRange(0, n-1).Draw(t, "at")
+		i := gen.Int(t, "at", 0, n-1)
 		out := append([]val.V{}, x[:i]...)
 		return append(out, x[i+1:]...)
 	case op == 2:
-		i := rapid.IntRange(0, n-1).Draw(t, "at")
+		i := gen.Int(t, "at", 0, n-1)
 		x[i] = newElem()
 		return x
 	case op == 3:
-		i := rapid.IntRange(0, n-1).Draw(t, "at")
-		j := rapid.IntRange(0, n).Draw(t, "to")
+		i := gen.Int(t, "at", 0, n-1)
+		j := gen.Int(t, "to", 0, n)
 		e := val.Clone(x[i])
 		out := append([]val.V{}, x[:j]...)
 		out = append(out, e)
 		return append(out, x[j:]...)
 	case op == 4 && n >= 2:
-		i := rapid.IntRange(0, n-2).Draw(t, "at")
+		i := gen.Int(t, "at", 0, n-2)
 		x[i], x[i+1] = x[i+1], x[i]
 		return x
 	default:
-		i := rapid.IntRange(0, n-1).Draw(t, "at")
-		l := rapid.IntRange(1, n-i).Draw(t, "len")
+		i := gen.Int(t, "at", 0, n-1)
+		l := gen.Int(t, "len", 1, n-i)
 		out := append([]val.V{}, x[:i]...)
 		return append(out, x[i+l:]...)
 	}
